@@ -152,6 +152,20 @@ def derived_pred_hit(rng, tree):
     return "%s[%s=%s]/%s" % (X.render_rel(tree, p), k, x, k)
 
 
+def derived_pred_miss(rng, tree):
+    """P[k=zzq]/k for a record list whose k values are scalars none of which is the text 'zzq': nothing matches"""
+    cands = []
+    for p, v in X.positions(tree):
+        if isinstance(v, list) and p and v and all(isinstance(r, dict) for r in v):
+            for k in {k for r in v for k in r}:
+                if all(not isinstance(r.get(k), (dict, list)) and r.get(k) != "zzq" for r in v) and k.isalnum():
+                    cands.append((p, k))
+    if not cands:
+        return None
+    p, k = rng.choice(sorted(cands))
+    return "%s[%s=zzq]/%s" % (X.render_rel(tree, p), k, k)
+
+
 def derived_miss(rng, tree):
     poss = [p for p, _ in X.positions(tree) if p]
     if not poss:
@@ -208,6 +222,8 @@ def check_lookup(c):
         return {"item_access_changed_tree": enc_diff(before, enc_val(o))}
     if item[0] == "err" and item[1] not in ALLOWED:
         return {"item_access_raised": item[1]}
+    if c.get("expect_miss") and item[0] != "err":
+        return {"nothing_matches_but_item_access_returned": repr(item[1])[:200]}
     if c.get("expect_hit") and item[0] == "err":
         return {"path_resolves_but_item_access_raised": item[1]}
     if c.get("hit_pos") is not None and item[1] is not X.get_at(o, c["hit_pos"]):
@@ -660,7 +676,7 @@ def shrink_failure(evaluator, case):
             else:
                 lo = mid + 1
         return best
-    if case.get("expect_hit") or "up" in case:
+    if case.get("expect_hit") or case.get("expect_miss") or "up" in case:
         return case  # the path was derived from this very tree: a smaller tree would fail for another reason
     chk = checker_of(evaluator)
     xp0 = case.get("xp")
@@ -706,6 +722,9 @@ def run(ctx):
                 if exact is not None:
                     # a spelling of a real position: the lookup returns that very node
                     cases[-1].update(expect_hit=True, hit_pos=exact)
+        pm = derived_pred_miss(rng, t) if isinstance(t, dict) else None
+        if pm:
+            cases.append({"tree": t, "mode": mode, "xp": pm, "expect_miss": True})
         ph = derived_pred_hit(rng, t) if isinstance(t, dict) else None
         if ph:
             cases.append({"tree": t, "mode": mode, "xp": ph, "expect_hit": True})
